@@ -278,12 +278,22 @@ def apply_trigger(b, sc, trig, fresh, red):
         raise ValueError(k)
 
 
-def prepare(sc):
-    utxos = [mk_utxo(u) for u in sc['utxos']]
+def prepare(sc, session=None):
+    """session: the caller's UTxO objects of an earlier build of the same scenario (a wallet session re-uses the objects it
+    fetched once, e.g. its reserved collateral): the same objects are registered again on a NEW builder"""
+    utxos = [mk_utxo(u) for u in sc['utxos']] if session is None else session['utxos']
     umap = [[u.input.transaction_id.payload.hex(), u.input.index, u.output.to_cbor().hex()] for u in utxos]
-    ctx = long_lived(Ctx, sc, utxos)
+    ctx = long_lived(Ctx, sc, utxos) if session is None else session['ctx']
     b = TransactionBuilder(ctx)
-    fresh = lambda i: copy.deepcopy(utxos[i])
+    if session is None:
+        fresh = lambda i: copy.deepcopy(utxos[i])
+    else:
+        held = session.setdefault('held', {})
+
+        def fresh(i):
+            if i not in held:
+                held[i] = copy.deepcopy(utxos[i])
+            return held[i]
     if sc.get('threshold') is not None:
         b.collateral_return_threshold = sc['threshold']
     if sc.get('fee_buffer') is not None:
@@ -305,13 +315,34 @@ def prepare(sc):
     for o in sc.get('outputs', []):
         b.add_output(TransactionOutput(Address.from_primitive(bytes.fromhex(o['addr'])),
                                        Value(o['coin'], mk_ma(o.get('assets', [])))))
+    if session is not None:
+        session['ctx'] = ctx
     return b, umap
 
 
 def handler(sc, payload):
     CALLS.clear()
     INTERN[0] = Interner()
-    b, umap = prepare(sc)
+    session = None
+    if sc.get('session') and sc['mode'] != 'slice':
+        # a wallet session: the objects are created once, registered on a first builder, built, and registered again on the
+        # second builder whose result is reported (what the first build did to the caller's objects shows here)
+        utxos0 = [mk_utxo(u) for u in sc['utxos']]
+        session = {'utxos': utxos0, 'ctx': long_lived(Ctx, sc, utxos0)}
+        b0, _ = prepare(sc, session)
+        try:
+            b0.build(change_address=Address.from_primitive(bytes.fromhex(sc['change'])) if sc.get('change') else None,
+                     collateral_change_address=Address.from_primitive(bytes.fromhex(sc['coll_change'])) if sc.get('coll_change') else None,
+                     merge_change=bool(sc.get('merge_change')))
+        except Exception:
+            pass
+        CALLS.clear()
+        INTERN[0] = Interner()
+    b, umap = prepare(sc, session)
+    if session is not None:
+        # the ledger's view of the UTxOs is the scenario's, not whatever the objects claim after the first build
+        fresh_objs = [mk_utxo(u) for u in sc['utxos']]
+        umap = [[u.input.transaction_id.payload.hex(), u.input.index, u.output.to_cbor().hex()] for u in fresh_objs]
     res = {'umap': umap}
     adr = lambda h: Address.from_primitive(bytes.fromhex(h)) if h else None
     if sc['mode'] == 'slice':
